@@ -71,6 +71,12 @@ DIRECTED = [
     "from t | join u (==a) | select {k = 1, t.b, u.c} | select {this.*}",
     "from t | select {a, b, c} | join u=(from u | select {d, e}) (a==d) | derive {k = 1, l = 2} | select !{a}",
     "from t | join u (==a) | derive {k = 1, l = 2} | select {t.*, k, u.*}",
+    # exclusions of exclusions (the surviving names of a set difference become columns), over unknown and known frames
+    "from t | select !{!{a, b, c, d}}",
+    "from t | select !{!{zeta, alpha, mid, beta, omega}} | sort alpha",
+    "from t | join u (==a) | select !{!{t.b, t.c, t.d, u.e, u.f}}",
+    "from t | select !{a} | select !{!{b, c, d, e}}",
+    DECL + "from t | select !{!{a, b, c}}",
     DECL + "from t | join u (==a) | select {this.*}",
     DECL + "from t | join u (==a) | derive {k = t.b + u.d, l = 2} | select !{t.a, u.e}",
     DECL + "from t | select {q1 = a, q2 = a, q3 = b, q4 = b, q5 = c, q6 = c, q7 = a + b} | sort {q7, -q2} | take 3 | select {q6, q1, q4}",
